@@ -1403,3 +1403,11 @@ func structNumFields(t types.Type) int {
 func structField(t types.Type, i int) *types.Var {
 	return t.Underlying().(*types.Struct).Field(i)
 }
+
+// constObjString returns the exact value of a constant object, "" otherwise.
+func constObjString(o types.Object) string {
+	if k, ok := o.(*types.Const); ok {
+		return k.Val().ExactString()
+	}
+	return ""
+}
